@@ -164,6 +164,15 @@ func (g *gen) prelude() []zn.Stmt {
 			show("外-in", v("N")),
 			ret(bin("+", &zn.Call{Name: "内", Args: []zn.Expr{v("N")}}, &zn.Member{Root: &zn.New{Class: "内类"}, Name: "值"})),
 		}},
+		// 输出 from inside a loop over a collection: the call yields THAT value, and nothing of
+		// the loop runs afterwards (no later entry is visited, no later 输出 replaces the value)
+		&zn.FuncDef{Name: "查", Params: []string{"集", "标"}, Body: []zn.Stmt{
+			&zn.ForEach{Names: []string{"键", "值"}, E: v("集"), Body: []zn.Stmt{
+				show("查-visit", v("键")),
+				&zn.If{Conds: []zn.Expr{bin("==", v("值"), v("标"))}, Blocks: [][]zn.Stmt{{ret(v("键"))}}},
+			}},
+			ret(&zn.Str{V: "无"}),
+		}},
 		// mutual recursion
 		&zn.FuncDef{Name: "偶", Params: []string{"N"}, Body: []zn.Stmt{
 			&zn.If{Conds: []zn.Expr{bin("==", v("N"), num(0))}, Blocks: [][]zn.Stmt{{ret(&zn.BoolLit{V: true})}}},
@@ -259,7 +268,29 @@ func (g *gen) mainOps() []zn.Stmt {
 	fresh := 0
 	nm := func(p string) string { fresh++; return fmt.Sprintf("%s%d", p, fresh) }
 	for i := 0; i < n; i++ {
-		switch g.pick(23, "op") {
+		switch g.pick(25, "op") {
+		case 23, 24: // the value of a call that leaves a loop over a collection through 输出
+			nent := 2 + g.pick(5, "nent")
+			target := float64(g.pick(3, "target"))
+			var coll zn.Expr
+			if g.pick(3, "colkind") == 0 {
+				l := &zn.ListLit{}
+				for k := 0; k < nent; k++ {
+					l.Items = append(l.Items, num(float64(g.pick(3, "ev"))))
+				}
+				coll = l
+				g.labels["output-inside-list-loop"] = true
+			} else {
+				d := &zn.DictLit{}
+				for k := 0; k < nent; k++ {
+					d.Keys = append(d.Keys, fmt.Sprintf("k%d", k))
+					d.Vals = append(d.Vals, num(float64(g.pick(3, "ev"))))
+				}
+				coll = d
+				g.labels["output-inside-dictionary-loop"] = true
+			}
+			r := nm("QR")
+			out = append(out, &zn.ExprStmt{E: &zn.Call{Name: "查", Args: []zn.Expr{coll, num(target)}, Yield: r}}, show("查", v(r)))
 		case 21, 22: // 其 after a call into another object that handled a deep exception
 			if len(g.objs) < 2 {
 				continue
